@@ -9,6 +9,7 @@ C07 designs.  (J) all recorded exchanges are validated by TLC as a trace (Trace_
 import json, os, random
 from vlib import core, httpcheck as hc, httpgen as hg, openapi_schema as osx, openapi_check as oc, openapi_gen as og
 
+KNOWN_NESTS = ("direct", "alias", "nested", "elem", "mapkey", "mapval", "nested_mapkey", "nested_elem", "elem_nested", "mapval_nested", "mapkey_alias")   # XNests
 DEDUP = "schema.dedup_ignores_validations"     # v3 components: a body type is replaced by a structurally equal one of another method
 ALL = osx.ALLDEVS + [DEDUP]
 
@@ -141,7 +142,7 @@ def run(ctx):
                         "responses are judged when the service's result satisfies the design (the server does not validate results)",
                         "JSON bodies only"]
     # (M) the Gen runs below check the same invariants while emitting the exchanges; every deviation must break one
-    guards = [(d, "req") for d in osx.XDEVS[:6]] + [("schema.response_cookie_value_schema", "res"), ("response.header_array_joined", "res"),
+    guards = [(d, "req") for d in osx.XDEVS[:7]] + [("schema.response_cookie_value_schema", "res"), ("response.header_array_joined", "res"),
                                                      (DEDUP, "req")]
     if not quick:
         guards += [(d, "req") for d in ("param.empty_string_is_absent", "validate.absent_collection_length", "mux.double_unescape")]
@@ -164,10 +165,15 @@ def run(ctx):
     groups = []
     for fam in ("req", "res"):
         vectors = gens[fam].result()
+        rd = [v for v in vectors if v.get("flag") in osx.RD]
+        vectors = [v for v in vectors if v.get("flag") not in osx.RD]
         groups.append((fam, [v for v in vectors if not xb(v)]))
         groups.append((fam, [v for v in vectors if xb(v)]))         # designs of their own: their documents may not load
+        groups.append((fam, rd))       # Required + Default attributes: designs of their own, so that no structurally equal body type of
+        #                                another method can stand in for theirs (schema.dedup_ignores_validations)
     for fam, fut in rands:
-        rv = fut.result()
+        # (the nestings this check knows; a `whole` payload cannot sit next to a second attribute)
+        rv = [v for v in fut.result() if all(a["nest"] in KNOWN_NESTS for a in v["pa"] + v["ra"])]
         groups.append((fam, [v for v in rv if not xb(v)]))
         groups.append((fam, [v for v in rv if xb(v)]))
     ex2.shutdown()
